@@ -34,7 +34,7 @@ man = {
     "setup_cmd": "make -C /verif setup",
     "hooks": {
         "guard": "ROBOL_MPSOLVE_VERIF",
-        "enable": "no source edits: every check snapshots /repo's working tree into a scratch directory and compiles libmps there with -DROBOL_MPSOLVE_VERIF=1 -include /verif/harness/vf_hooks.h (lib/build_repo.sh); the header only adds declarations and, for scheduler builds (-DVF_SHIM), redirects pthread_* calls to harness/vf_sched.c",
+        "enable": "no source edits: every check snapshots /repo's working tree into a scratch directory and compiles libmps there with -DROBOL_MPSOLVE_VERIF=1 -include /verif/harness/vf_hooks.h (lib/build_repo.sh); the header only adds declarations and, for scheduler builds (-DVF_SHIM), redirects pthread_* calls to harness/vf_sched.c. Checks that need more observation add it at build or link time of that scratch copy only: an extra force-included header (harness/c18_hooks.h turns every read of exit_required into a scheduling point), link-time wrappers (-Wl,--wrap=<fn>: Newton entry points for C01, stop tests/modify/improve for C02, cplx_mod/cdpe_mod/mpc_get_cdpe for C04, pool entry points for C06), or a traced copy of one source file (mpc.c/gmptools.c for C13, secular-ga.c for C02). With the guard undefined (the repository's own build) none of this exists",
         "baseline_off_cmd": "cd /repo && make -j8 >/dev/null && make check",
         "source_commits": [],
         "add_only": True,
